@@ -1,4 +1,18 @@
-from .cli import main
 import sys
+import traceback
 
-sys.exit(main(sys.argv[1:]))
+
+def _run():
+    try:
+        from .cli import main
+
+        return main(sys.argv[1:])
+    except SystemExit:
+        raise
+    except BaseException as e:  # any uncaught exception is a harness error: never exit 1
+        traceback.print_exc()
+        print(f"HARNESS-ERROR uncaught {type(e).__name__}: {e}")
+        return 2
+
+
+sys.exit(_run())
